@@ -341,6 +341,219 @@ theorem matrix_upper_entries (n : Nat) (M : Matrix) (i j : Nat) (hi : i < n) (hj
 example : matrixOf .upper (some 3) [⟨1, 1, [some 1.5, some 2.5, some 3.5]⟩, ⟨2, 3, [some 4.5, Option.none, Option.none]⟩] =
     some [[1.5, 2.5, 3.5], [2.5, 0, 4.5], [3.5, 4.5, 0]] := by decide +kernel
 
+/-! ## 5. Per-site regrouping -/
+
+/-- all rows stored under `entry`, over all sites, in table order -/
+def allRows (entry : String) (T : SiteTable) : List Row :=
+  T.flatMap fun (_, entries) => (dget? entries entry).getD []
+
+theorem dget_dset_self {α} (d : List (String × α)) (k : String) (v : α) : dget? (dset d k v) k = some v := by
+  induction d with
+  | nil => simp [dset, dget?]
+  | cons p rest ih =>
+    obtain ⟨k', v'⟩ := p
+    by_cases h : k' = k
+    · simp [dset, dget?, h]
+    · simp [dset, dget?, h, ih]
+
+/-- appending one row to a site's list adds exactly that row to the collection of all rows -/
+theorem allRows_addRow (entry : String) (T : SiteTable) (key : String) (r : Row) :
+    (allRows entry (addRow false entry T key r)).Perm (allRows entry T ++ [r]) := by
+  unfold addRow
+  simp only [Bool.false_eq_true, if_false]
+  induction T with
+  | nil =>
+    simp [dget?, dset, allRows, dget_dset_self]
+  | cons p rest ih =>
+    obtain ⟨k', s'⟩ := p
+    by_cases h : k' = key
+    · subst h
+      simp only [dget?, if_true, Option.getD_some, dset, allRows, List.flatMap_cons, dget_dset_self]
+      -- (old ++ [r]) ++ tail  ~  (old ++ tail) ++ [r]
+      rw [List.append_assoc, List.append_assoc]
+      exact List.Perm.append_left _ List.perm_append_comm
+    · simp only [dget?, h, if_false, dset, allRows, List.flatMap_cons]
+      rw [List.append_assoc]
+      exact List.Perm.append_left _ ih
+
+/-- **site_regroup**: regrouping the rows of a block by site loses and duplicates no row — the rows
+found under the block's entry over all sites are a permutation of the ones that were there before
+plus the block's rows (as transformed by the parser, e.g. without `site_code` for discontinuities) -/
+theorem site_regroup (entry : String) (keyOf : Row → String) (f : Row → Row) (rows : List Row) :
+    ∀ T : SiteTable, (allRows entry (regroup false entry keyOf f T rows)).Perm (allRows entry T ++ rows.map f) := by
+  induction rows with
+  | nil => intro T; simp [regroup]
+  | cons r rows ih =>
+    intro T
+    simp only [regroup, List.foldl_cons, List.map_cons] at ih ⊢
+    refine (ih (addRow false entry T (keyOf r) (f r))).trans ?_
+    have h := allRows_addRow entry T (keyOf r) (f r)
+    have h2 := List.Perm.append_right (rows.map f) h
+    refine h2.trans ?_
+    simp [List.append_assoc]
+
+/-- … and each row sits under the site its `site_code` names (lower-cased) -/
+theorem addRow_site (entry : String) (T : SiteTable) (key : String) (r : Row) :
+    ∃ rows, ((dget? (addRow false entry T key r) key).bind fun s => dget? s entry) = some (rows ++ [r]) := by
+  unfold addRow
+  simp only [Bool.false_eq_true, if_false, dget_dset_self, Option.bind_some]
+  exact ⟨_, rfl⟩
+
+/-! ## 6. Matrix entries -/
+
+/-- a matrix line with its values already filtered: 1-based row and first column, the listed run -/
+abbrev Run := Nat × Nat × List Rat
+
+/-- the line lies inside an `n × n` matrix -/
+def Run.ok (n : Nat) (l : Run) : Prop := 1 ≤ l.1 ∧ l.1 ≤ n ∧ 1 ≤ l.2.1 ∧ l.2.1 - 1 + l.2.2.length ≤ n ∧ 1 ≤ l.2.2.length
+
+/-- the value the line lists for the (0-based) element `(i, j)`, if it covers it -/
+def cover (l : Run) (i j : Nat) : Option Rat :=
+  if i = l.1 - 1 ∧ l.2.1 - 1 ≤ j ∧ j < l.2.1 - 1 + l.2.2.length then l.2.2[j - (l.2.1 - 1)]? else Option.none
+
+/-- the value listed by the last line that covers `(i, j)` -/
+def lastCover : List Run → Nat → Nat → Option Rat
+  | [], _, _ => Option.none
+  | l :: rest, i, j => (lastCover rest i j).orElse fun _ => cover l i j
+
+def Square (n : Nat) (M : Matrix) : Prop := M.length = n ∧ ∀ r ∈ M, r.length = n
+
+theorem square_zeros (n : Nat) : Square n (zeros n) := by
+  constructor
+  · simp [zeros]
+  · intro r hr
+    simp only [zeros, List.mem_replicate] at hr
+    rw [hr.2]; simp
+
+theorem get_zeros (n i j : Nat) : (zeros n).get i j = 0 := by
+  unfold Matrix.get zeros
+  by_cases hi : i < n
+  · by_cases hj : j < n <;> simp [List.getD_eq_getElem?_getD, hi, hj]
+  · simp [List.getD_eq_getElem?_getD, hi]
+
+theorem writeLine_spec (n : Nat) (M : Matrix) (hM : Square n M) (l : Run) (hl : l.ok n) :
+    ∃ M', writeLine M l.1 l.2.1 l.2.2 = some M' ∧ Square n M' ∧
+      ∀ i j, M'.get i j = (cover l i j).getD (M.get i j) := by
+  obtain ⟨r, c, vals⟩ := l
+  obtain ⟨hr1, hrn, hc1, hcn, hlen⟩ := hl
+  simp only at hr1 hrn hc1 hcn hlen
+  obtain ⟨hMl, hMr⟩ := hM
+  have hne : vals.isEmpty = false := by cases vals <;> simp_all
+  have hk : min (c - 1 + vals.length) M.length - min (c - 1) M.length = vals.length := by omega
+  have hrM : r ≤ M.length := by omega
+  have hnz : ¬ (r = 0 ∨ c = 0) := by omega
+  have hidx : r - 1 < M.length := by omega
+  -- the row that is rewritten
+  have hget : M[r - 1]? = some M[r - 1] := List.getElem?_eq_getElem hidx
+  have hrowlen : (M[r - 1]).length = n := hMr _ (List.getElem_mem _)
+  have hrowD : M.getD (r - 1) [] = M[r - 1] := by rw [List.getD_eq_getElem?_getD, hget]; rfl
+  refine ⟨M.set (r - 1) (((M[r - 1]).take (c - 1)) ++ vals ++ (M[r - 1]).drop (c - 1 + vals.length)), ?_, ?_, ?_⟩
+  · unfold writeLine
+    simp only [hne, Bool.false_eq_true, if_false, hnz, hk, if_true, hrM, hrowD]
+  · constructor
+    · simp [hMl]
+    · intro row hrow
+      rcases List.mem_or_eq_of_mem_set hrow with h | h
+      · exact hMr row h
+      · rw [h]
+        simp only [List.length_append, List.length_take, List.length_drop, hrowlen]
+        omega
+  · intro i j
+    unfold Matrix.get cover
+    simp only
+    by_cases hi : i = r - 1
+    · subst hi
+      simp only [List.getD_eq_getElem?_getD, List.getElem?_set_self hidx, Option.getD_some, true_and, hget]
+      have e1 : (List.take (c - 1) M[r - 1]).length = c - 1 := by
+        simp only [List.length_take, hrowlen]; omega
+      by_cases h1 : j < c - 1
+      · have hn : ¬ (c - 1 ≤ j ∧ j < c - 1 + vals.length) := by omega
+        simp only [hn, if_false, Option.getD_none]
+        rw [List.append_assoc, List.getElem?_append_left (by rw [e1]; exact h1), List.getElem?_take]
+        simp [h1]
+      · by_cases h2 : j < c - 1 + vals.length
+        · have hy : (c - 1 ≤ j ∧ j < c - 1 + vals.length) := by omega
+          simp only [hy, and_self, if_true]
+          have hlt : j - (c - 1) < vals.length := by omega
+          rw [List.append_assoc, List.getElem?_append_right (by rw [e1]; omega), e1,
+            List.getElem?_append_left hlt, List.getElem?_eq_getElem hlt]
+          simp
+        · have hn : ¬ (c - 1 ≤ j ∧ j < c - 1 + vals.length) := by omega
+          simp only [hn, if_false, Option.getD_none]
+          have e2 : (List.take (c - 1) M[r - 1] ++ vals).length = c - 1 + vals.length := by
+            rw [List.length_append, e1]
+          rw [List.getElem?_append_right (by rw [e2]; omega), e2, List.getElem?_drop]
+          congr 2
+          omega
+    · have hne' : r - 1 ≠ i := fun h => hi h.symm
+      simp only [List.getD_eq_getElem?_getD, List.getElem?_set_ne hne', hi, false_and, if_false, Option.getD_none]
+
+/-- `lines.foldlM writeLine` from any square start -/
+def fillFrom (M0 : Matrix) (ls : List Run) : Option Matrix :=
+  ls.foldlM (fun M l => writeLine M l.1 l.2.1 l.2.2) M0
+
+theorem fillFrom_spec (n : Nat) (ls : List Run) : ∀ (M0 : Matrix), Square n M0 → (∀ l ∈ ls, l.ok n) →
+    ∃ M, fillFrom M0 ls = some M ∧ Square n M ∧ ∀ i j, M.get i j = (lastCover ls i j).getD (M0.get i j) := by
+  induction ls with
+  | nil => intro M0 h0 _; exact ⟨M0, rfl, h0, fun i j => rfl⟩
+  | cons l rest ih =>
+    intro M0 h0 hok
+    obtain ⟨M1, hw, hs1, hg1⟩ := writeLine_spec n M0 h0 l (hok l (by simp))
+    obtain ⟨M, hf, hs, hg⟩ := ih M1 hs1 (fun l' h' => hok l' (by simp [h']))
+    refine ⟨M, ?_, hs, ?_⟩
+    · simp only [fillFrom, List.foldlM_cons, hw, Option.bind_eq_bind, Option.bind_some]
+      exact hf
+    · intro i j
+      rw [hg i j, hg1 i j]
+      simp only [lastCover]
+      cases lastCover rest i j <;> simp
+
+/-- **matrix_entries**: after all lines are written into the zero matrix, element `(i, j)` holds the
+value listed for it (by the last line that lists it) and every element no line lists is zero -/
+theorem matrix_entries (n : Nat) (ls : List Run) (hok : ∀ l ∈ ls, l.ok n) :
+    ∃ M, fillFrom (zeros n) ls = some M ∧ ∀ i j, M.get i j = (lastCover ls i j).getD 0 := by
+  obtain ⟨M, hf, _, hg⟩ := fillFrom_spec n ls (zeros n) (square_zeros n) hok
+  exact ⟨M, hf, fun i j => by rw [hg i j, get_zeros]⟩
+
+/-- the model's `fillMatrix` is `fillFrom` on the filtered runs of its lines -/
+theorem fillMatrix_eq (n : Nat) (lines : List MatLine) (h : ∀ l ∈ lines, 0 ≤ l.row ∧ 0 ≤ l.col) :
+    fillMatrix n lines = fillFrom (zeros n) (lines.map fun l => (l.row.toNat, l.col.toNat, l.vals.filterMap id)) := by
+  unfold fillMatrix fillFrom
+  generalize zeros n = M0
+  induction lines generalizing M0 with
+  | nil => rfl
+  | cons l rest ih =>
+    have hl := h l (by simp)
+    have hneg : ¬ (l.row < 0 ∨ l.col < 0) := by omega
+    simp only [List.foldlM_cons, List.map_cons, hneg, if_false]
+    cases writeLine M0 l.row.toNat l.col.toNat (List.filterMap id l.vals) with
+    | none => rfl
+    | some M1 => exact ih (fun l' h' => h l' (by simp [h'])) M1
+
+/-- **the full matrix (lower form)**: listed values at `(row, col+k)` and mirrored, zeros elsewhere -/
+theorem matrix_full_lower (n : Nat) (ls : List Run) (hok : ∀ l ∈ ls, l.ok n) :
+    ∃ R, (fillFrom (zeros n) ls).map (symmetrize .lower n) = some R ∧
+      ∀ i j, i < n → j < n → j ≤ i →
+        R.get i j = (lastCover ls i j).getD 0 ∧ R.get j i = (lastCover ls i j).getD 0 := by
+  obtain ⟨M, hf, hg⟩ := matrix_entries n ls hok
+  refine ⟨symmetrize .lower n M, by rw [hf]; rfl, ?_⟩
+  intro i j hi hj hji
+  have := matrix_lower_entries n M i j hi hj hji
+  rw [this.1, this.2, hg i j]
+  exact ⟨rfl, rfl⟩
+
+/-- **the full matrix (upper form)** -/
+theorem matrix_full_upper (n : Nat) (ls : List Run) (hok : ∀ l ∈ ls, l.ok n) :
+    ∃ R, (fillFrom (zeros n) ls).map (symmetrize .upper n) = some R ∧
+      ∀ i j, i < n → j < n → i ≤ j →
+        R.get i j = (lastCover ls i j).getD 0 ∧ R.get j i = (lastCover ls i j).getD 0 := by
+  obtain ⟨M, hf, hg⟩ := matrix_entries n ls hok
+  refine ⟨symmetrize .upper n M, by rw [hf]; rfl, ?_⟩
+  intro i j hi hj hij
+  have := matrix_upper_entries n M i j hi hj hij
+  rw [this.1, this.2, hg i j]
+  exact ⟨rfl, rfl⟩
+
 end Midgard.Props.C14
 
 #print axioms Midgard.Props.C14.starts_sorted
@@ -366,3 +579,15 @@ end Midgard.Props.C14
 #print axioms Midgard.Props.C14.matrix_shape
 #print axioms Midgard.Props.C14.matrix_lower_entries
 #print axioms Midgard.Props.C14.matrix_upper_entries
+#print axioms Midgard.Props.C14.dget_dset_self
+#print axioms Midgard.Props.C14.allRows_addRow
+#print axioms Midgard.Props.C14.site_regroup
+#print axioms Midgard.Props.C14.addRow_site
+#print axioms Midgard.Props.C14.square_zeros
+#print axioms Midgard.Props.C14.get_zeros
+#print axioms Midgard.Props.C14.writeLine_spec
+#print axioms Midgard.Props.C14.fillFrom_spec
+#print axioms Midgard.Props.C14.matrix_entries
+#print axioms Midgard.Props.C14.fillMatrix_eq
+#print axioms Midgard.Props.C14.matrix_full_lower
+#print axioms Midgard.Props.C14.matrix_full_upper
